@@ -1,0 +1,14 @@
+//go:build verif
+
+package tape
+
+// VerifDriveLockHeld reports whether the physical drive lock is currently held (observation hook for verification harnesses)
+func (m *TapeManager) VerifDriveLockHeld() bool {
+	if m.physicalLock.TryLock() {
+		m.physicalLock.Unlock()
+
+		return false
+	}
+
+	return true
+}
